@@ -119,13 +119,14 @@ func checkRewrite(graphBuilder *AuthorizationModelGraphBuilder, parentNode *Auth
 
 func parseThis(graphBuilder *AuthorizationModelGraphBuilder, parentNode graph.Node, typeDef *openfgav1.TypeDefinition, relation string) {
 	directlyRelated := make([]*openfgav1.RelationReference, 0)
-	var curNode *AuthorizationModelNode
 
 	if relationMetadata, ok := typeDef.GetMetadata().GetRelations()[relation]; ok {
 		directlyRelated = relationMetadata.GetDirectlyRelatedUserTypes()
 	}
 
 	for _, directlyRelatedDef := range directlyRelated {
+		var curNode *AuthorizationModelNode
+
 		if directlyRelatedDef.GetRelationOrWildcard() == nil {
 			// direct assignment to concrete type
 			assignableType := directlyRelatedDef.GetType()
@@ -142,6 +143,11 @@ func parseThis(graphBuilder *AuthorizationModelGraphBuilder, parentNode graph.No
 			// direct assignment to userset
 			assignableUserset := directlyRelatedDef.GetType() + "#" + directlyRelatedDef.GetRelation()
 			curNode = graphBuilder.getOrAddNode(assignableUserset, assignableUserset, SpecificTypeAndRelation)
+		}
+
+		if curNode == nil {
+			// neither a type, a wildcard nor a userset (e.g. a wildcard or relation oneof that was left empty)
+			continue
 		}
 
 		// de-dup types that are conditioned, e.g. if define viewer: [user, user with condX]
